@@ -25,7 +25,7 @@ tvars == <<dvars, tid, l, verdict, pred, seen, first, nlist, fetched>>
 Ev == Traces[tid].events
 DirOf(i) == [sb |-> i.sb, handler |-> i.handler, ign |-> i.ign, sniff |-> i.sniff, kids |-> Range(i.kids)]
 
-TInit == /\ tid \in 1..NTraces /\ l = 1 /\ verdict = "ok" /\ pred = <<>> /\ seen = <<>>
+TInit == /\ tid \in 1..NTraces /\ l = 1 /\ verdict = "ok" /\ pred = NoExpect /\ seen = <<>>
          /\ first = <<>> /\ nlist = 0 /\ fetched = {}
          /\ DirInit(DirOf(Traces[tid].init.d))
 
@@ -33,7 +33,7 @@ Known == {"enum", "touches", "response", "fetch", "end"}
 
 Enum(e) ==
     IF pc \in {"start", "done"} /\ IsEnumOf(d, e.order)
-    THEN ListDir(e.order) /\ pred' = PredictedTouches(d, e.order) /\ verdict' = "ok" /\ UNCHANGED <<seen, first, nlist, fetched>>
+    THEN ListDir(e.order) /\ pred' = Expect(d, e.order) /\ verdict' = "ok" /\ UNCHANGED <<seen, first, nlist, fetched>>
     ELSE UNCHANGED <<dvars, pred, seen, first, nlist, fetched>> /\ verdict' = "unmatched"
 
 Touches(e) == UNCHANGED <<dvars, pred, first, nlist, fetched>> /\ seen' = e.names /\ verdict' = "ok"
@@ -48,9 +48,9 @@ Response(e) ==
        /\ first' = IF nlist = 0 THEN e.listing ELSE first
        /\ nlist' = nlist + 1
        /\ verdict' = IF e.status # "ok" THEN "Answered" ELSE IF pc # "filter" THEN "unmatched" ELSE v
-       /\ (IF v # "ok" \/ (e.status = mdl.kind /\ e.listing = mdl.listing) THEN TRUE
+       /\ (IF v # "ok" \/ [kind |-> e.status, listing |-> e.listing] \in pred.outs THEN TRUE
            ELSE RecordDrift(tid, l, "listing differs from the pipeline model"))
-       /\ (IF v # "ok" \/ seen = pred THEN TRUE
+       /\ (IF v # "ok" \/ seen \in pred.touches THEN TRUE
            ELSE RecordDrift(tid, l, "children inspected in another order than the model predicts"))
 
 Expected(k) == IF k.kind = "dir" THEN "menu" ELSE "content"
